@@ -36,6 +36,20 @@ add_leg('C17', 'C17w', 3000, 60, 200000, 900)
 add_leg('C13', 'C13e', 3000, 60, 200000, 900)
 PROPS['C03']['legs']['quick'].append(dict(scenario='C03', runs=1600, budget=60, tag='sweep', params={'c03_sweep': 1}))
 PROPS['C03']['legs']['thorough'].append(dict(scenario='C03', runs=64000, budget=900, tag='sweep', params={'c03_sweep': 1}))
+def _c04_size(n, k):
+    P, A = 2 * n, 4
+    total, c, a = 0, 1, 1
+    for j in range(k + 1):
+        total += c * a
+        c = c * (P - j) // (j + 1)
+        a *= A
+    return total * 48
+def _c04_sweep(n, k):
+    return dict(params=dict(c04_sweep=1, sweep_n=n, sweep_k=k), size=_c04_size(n, k),
+                text=f'{{client/server, server/client, client/client}} x interleaving on/off per side x zero-checksum acceptance on/off per side (48 configurations) x every placement of at most {k} faults from {{drop, duplicate, delay past the next retransmission, swap with successor}} on the first {n} packets of each direction of the handshake')
+PROPS['C04']['level'] = 'fault_enumeration'
+PROPS['C04']['legs']['quick'].append(dict(scenario='C04', runs=0, budget=300, tag='sweep', sweep=_c04_sweep(4, 2)))
+PROPS['C04']['legs']['thorough'].append(dict(scenario='C04', runs=0, budget=3000, tag='sweep', sweep=_c04_sweep(6, 3)))
 add_leg('C11', 'C11h', 320, 60, 20000, 1500)
 PROPS['C20']['race_legs'] = {'quick': [dict(scenario='C20', runs=480)], 'thorough': [dict(scenario='C20', runs=40000)]}
 add_leg('C20', 'D_deadline_two_readers', 1, 10, 1, 10)
@@ -92,8 +106,8 @@ MANIFEST_TEXT.update({
 
 MANIFEST_TEXT.update({
     'C04': dict(design_ref='DESIGN.md §5 C04',
-                technique='deterministic simulation: handshake under bounded packet faults (all role / option combinations, INIT collision, SNAP), agreement oracle on Metadata and wire, stale-packet replay, silent peer with the T1 schedule as bound',
-                text='Seeded exploration of client/server, client/client and SNAP handshakes with loss/dup/delay confined to the first packets of each direction (so every retransmitted packet keeps a chance), followed by Metadata agreement, verification-tag and checksum checks on the wire and a 20-message exchange while captured handshake packets are replayed; silent-peer and closed-server-transport runs are bounded by the RFC 9260 T1 schedule. Evidence, not proof.',
+                technique='deterministic simulation: complete enumeration of <= k fault placements on the first n handshake packets of each direction x role / option combinations (fault plan through the simulated network), plus seeded handshakes under bounded packet faults (INIT collision, SNAP), agreement oracle on Metadata and wire, stale-packet replay, silent peer with the T1 schedule as bound',
+                text='Seeded exploration of client/server, client/client and SNAP handshakes with loss/dup/delay confined to the first packets of each direction (so every retransmitted packet keeps a chance), followed by Metadata agreement, verification-tag and checksum checks on the wire and a 20-message exchange while captured handshake packets are replayed; silent-peer and closed-server-transport runs are bounded by the RFC 9260 T1 schedule. Systematic leg (this is what the level refers to): one run for every cell of {client/server, server/client, client/client} x interleaving per side x zero-checksum acceptance per side x every placement of at most k faults from {drop, duplicate, delay past the next retransmission, swap with successor} on the first n packets of each direction (quick: n=4, k=2, 23 088 cells; thorough: n=6, k=3, 728 880 cells), driven through the same simulator by a fault plan decoded from the run index; the evidence lists the sub-space, its size, the cells executed and exhaustive=true only when they are equal. All other dimensions (MTU, buffers, RTO.max, latency, initial TSNs, schedule) and the other legs are seeded sampling. Evidence, not proof.',
                 note=SIM_NOTE),
     'C08': dict(design_ref='DESIGN.md §5 C08',
                 technique='deterministic simulation: Shutdown at seeded points of a transfer (one-sided and crossed), loss / long partitions during the shutdown sequence, delivery + rejection + closure oracle',
